@@ -334,6 +334,9 @@ def install(I, ns):
         v = a[0]
         if isinstance(v, EnumVal):
             v = v.value
+        if type(v).__name__ == "SStr":
+            from . import textmodel
+            return textmodel.to_int(i, v)
         if type(v) in (int, float, bool, str, bytes):
             try:
                 return int(v, *a[1:]) if len(a) > 1 else int(v)
@@ -367,6 +370,9 @@ def install(I, ns):
         v = a[0]
         if isinstance(v, EnumVal):
             v = v.value
+        if type(v).__name__ == "SStr":
+            from . import textmodel
+            return textmodel.to_float(i, v)
         if type(v) in (int, float, bool, str):
             try:
                 return float(v)
@@ -491,6 +497,8 @@ def install(I, ns):
         return SV(f(v.z), "real")
     I.str_to_float = str_to_float
 
+    for _mname in ("strip", "split", "lower", "upper", "startswith", "join"):
+        ns["str"].ns[_mname] = Builtin(f"str.{_mname}", (lambda mn: lambda i, a, k: i.call(i.getattr_(a[0], mn), a[1:], k))(_mname))
     # decorators that appear as plain names in expressions
     ns["property"] = Builtin("property", lambda i, a, k: PropertyV(*a, **k))
     ns["classmethod"] = Builtin("classmethod", lambda i, a, k: ClassMethodV(a[0]))
